@@ -8,7 +8,7 @@
 From Coq Require Import Sorted.
 From GixV.Base Require Import Bytes BytesFacts Outcome.
 From Coq Require Import Permutation.
-From GixV.C09 Require Import Model ProofsBisect ProofsOrder ProofsLookup ProofsFanout ProofsWrite ProofsLayout.
+From GixV.C09 Require Import Model ProofsBisect ProofsOrder ProofsLookup ProofsFanout ProofsWrite ProofsLayout ProofsOffsets.
 Local Open Scope N_scope.
 
 (* a full-id lookup finds an id exactly when it is present, and the index it returns holds that id;
@@ -102,6 +102,39 @@ Theorem index_file_lookups : forall es ph,
              then (if 1 <? b - a then PAmbiguous else POk a, if cands then Some (a, b) else None)
              else (PNone, if cands then Some (0, 0) else None))).
 Proof. exact L_index_file_lookups. Qed.
+
+(* byte level, pack index: on the file written by the index writer, pack_offset_at_index i and
+   crc32_at_index i return the offset (any u64: 32-bit table, or high bit + 64-bit table, across 2^31
+   and 2^32) and the crc32 that were written for the i-th entry in id order; no panic *)
+Theorem index_file_offsets_and_crcs : forall es ph,
+  Forall (fun e => length (eid e) = 20%nat) es -> N.of_nat (length es) <= LARGE_OFFSET_THRESHOLD ->
+  length ph = 20%nat ->
+  Forall (fun e => eofs e < U64 /\ ecrc e < U32) es ->
+  let s := sort_by cmp_entry_id es in
+  exists data f,
+    index_write es ph = Ok data /\ index_at data = Ok f /\ inum f = N.of_nat (length es) /\
+    forall i, i < N.of_nat (length es) ->
+      pack_offset_at_index f i = Ok (eofs (nth (N.to_nat i) s dflt)) /\
+      crc32_at_index f i = Ok (ecrc (nth (N.to_nat i) s dflt)).
+Proof. exact L_index_offsets_crcs. Qed.
+
+(* the composed statement: on the written file a full-id lookup returns None exactly for ids that were
+   not written, and otherwise an index whose id, offset and crc32 are those of one written entry with
+   that id (id, recorded offset and CRC of exactly that object) *)
+Theorem index_file_lookup_entry : forall es ph,
+  Forall (fun e => length (eid e) = 20%nat) es -> N.of_nat (length es) <= LARGE_OFFSET_THRESHOLD ->
+  length ph = 20%nat ->
+  Forall (fun e => eofs e < U64 /\ ecrc e < U32) es ->
+  exists data f,
+    index_write es ph = Ok data /\ index_at data = Ok f /\
+    forall id, exists r, index_lookup f id = Ok r /\
+      match r with
+      | Some m => exists e, In e es /\ eid e = id /\
+                    oid_at_index f m = Ok id /\
+                    pack_offset_at_index f m = Ok (eofs e) /\ crc32_at_index f m = Ok (ecrc e)
+      | None => ~ In id (map eid es)
+      end.
+Proof. exact L_index_lookup_entry. Qed.
 
 (* non-vacuity, and one byte-level instance end to end: three entries (one offset in the 64-bit
    table), written, opened, looked up by id and by prefix *)
